@@ -49,7 +49,7 @@ def config(pid, extra_props=None):
         "violation_kinds": [pid + ":"],
         "extend": extend,
         "harnesses": [
-            {"cmd": "sched", "cases_quick": 96, "cases_thorough": 1600, "shards_quick": 16, "shards_thorough": 32, "shared": True, "procs": 4},
+            {"cmd": "sched", "cases_quick": 96, "cases_thorough": 1200, "shards_quick": 16, "shards_thorough": 96, "shared": True, "procs": 4},
         ],
         "trusted_base": [
             "hand-written model coq/theories/Sched/{Types,Model,Steps}.v of in_memory_build_queue.go: one event = one critical section; binary heaps as sets with minimum-by-Less selection, ties and Go map iteration order resolved by admissible hints taken from the observed post-state; float64 score comparison modelled exactly in Z (priorities chosen so that no exact or near tie between different priorities arises)",
